@@ -256,7 +256,7 @@ func (c *Ctx) LookupConst(name string) types.Object {
 	if p == nil {
 		return nil
 	}
-	o, _ := p.Types.Scope().Lookup(name[i+1:]).(*types.Const)
+	o, _ := c.LookupPkgObj(name).(*types.Const)
 	if o == nil {
 		return nil
 	}
@@ -305,7 +305,7 @@ func init() {
 				glue := false // the clause reads a symbol or number: such a rune continues a token after '-'
 				ast.Inspect(cc, func(n ast.Node) bool {
 					if ce, ok := n.(*ast.CallExpr); ok {
-						if f := Callee(info, ce); f != nil && (f.Name() == "readSymbol" || f.Name() == "readNumber") {
+						if f := Callee(info, ce); f != nil && (shortName(originOf(f)) == "readSymbol" || shortName(originOf(f)) == "readNumber") {
 							glue = true
 						}
 					}
@@ -441,7 +441,7 @@ func init() {
 							switch fn {
 							case emit:
 								construct := ord.next("EmitToken")
-								if u.Obj.Name() == "charToken" {
+								if shortName(u.Obj) == "charToken" {
 									obs = append(obs, mkOb(c, "LEX.overflow-checked", u, construct, ce, Proved, "single-rune token (brackets, quote): emitted right after one accepted rune, it cannot fill the window", false))
 									continue
 								}
